@@ -6,7 +6,7 @@
    file are never converted.  The encode registrations, the file-suffix table and the enum-default conversion are parameters,
    regenerated from the source into Gen/FactsConfigLoop.v.  Definitions only.
    Reused from Model/Leaf.v: ty, value, conv/convert, arg_options (the action's type= converter), postprocess. *)
-From SPV Require Export Base.Str Model.Leaf.
+From SPV Require Export Base.Str Model.Leaf Model.LeafSpec.   (* LeafSpec: value_eqb (Python == on values) *)
 
 (* ---------- what save() hands to json.dump / yaml.dump / pickle.dump for one field ---------- *)
 Inductive prim :=
@@ -23,6 +23,45 @@ Inductive erule :=
 | EName.      (* obj.name *)
 
 Inductive codec := CJson | CYaml | CPickle | COther (cls : string).
+
+(* ---------- wiring read off the source (Gen/FactsConfigLoop.v), interpreted below ---------- *)
+(* FieldWrapper.postprocess: the if/elif chain, test and body of every arm *)
+Inductive pp_test := PtEnum | PtChoice | PtTuple | PtBool | PtList | PtSubparser | PtOptional | PtNotBuiltin.
+Inductive pp_rule :=
+| PrEnumByName                  (* if isinstance(raw, str): raw = self.type[raw]; return raw *)
+| PrChoice                      (* choice_dict lookup (Literal fields: outside this grammar) *)
+| PrTuple (none_guard : bool)   (* if [raw is not None and] not isinstance(raw, tuple): return tuple(raw); otherwise falls to the end *)
+| PrIdentity                    (* return raw *)
+| PrListOfTuple                 (* tuple -> list(raw), anything else as it is *)
+| PrOptTuple                    (* Optional[Tuple..] and a list -> tuple(raw); otherwise falls to the end *)
+| PrCallType.                   (* try: return self.type(raw) except Exception: return raw *)
+(* FieldWrapper.default: the chain of sources *)
+Inductive dsrc := DManual | DSubgroup | DParent | DFieldDefault | DFactory | DStoreTrue | DStoreFalse.
+(* _create_dataclass_instance: conjuncts of the "this Optional member is None" guard *)
+Inductive gtest := GOptional | GDefaultNone | GDefaultsAllNone.
+(* parse_known_args: where config files are applied from, in order *)
+Inductive csrc := CCtor | CCli.
+Inductive nmode := NmDefault | NmWithoutRoot | NmOther (name : string).
+Definition nmode_eqb (a b : nmode) : bool :=
+  match a, b with
+  | NmDefault, NmDefault | NmWithoutRoot, NmWithoutRoot => true
+  | NmOther x, NmOther y => String.eqb x y
+  | _, _ => false
+  end.
+(* how the file reaches the parser, and which entry point builds the parser *)
+Inductive route := RCtor | RCli.
+Inductive api := AParse | AParser.
+
+Record wiring := mkwiring {
+  w_pp : list (pp_test * pp_rule);      (* postprocess chain *)
+  w_dchain : list dsrc;                 (* FieldWrapper.default chain *)
+  w_wdr : bool;                         (* DataclassWrapper.set_default stores a dict as the wrapper's own default *)
+  w_oguard : list gtest;                (* _create_dataclass_instance guard *)
+  w_csources : list csrc;               (* parse_known_args: config sources applied before set-up *)
+  w_parse_nm : nmode;                   (* parse(): default nested_mode *)
+  w_parser_nm : nmode;                  (* ArgumentParser(): default nested_mode *)
+  w_reroot : list nmode                 (* set_defaults re-roots the file under the (single) destination for these modes *)
+}.
 
 Fixpoint assoc {A} (k : string) (l : list (string * A)) : option A :=
   match l with
@@ -112,7 +151,7 @@ Section WithFacts.
   Variable enc : list (string * erule).                 (* Gen: encode.register(<class>) -> body *)
   Variable exts : list (string * codec).                (* Gen: serializable.extensions *)
   Variable enum_default_as_name : bool.                 (* Gen: get_arg_options turns an Enum default into its name *)
-  Variable tuple_none_guard : bool.                     (* Gen: postprocess' tuple branch leaves None alone (`raw is not None and ...`) *)
+  Variable W : wiring.                                  (* Gen: the tables above *)
 
   (* encode(value): dispatch on the class of the value *)
   Fixpoint encode_cfg (v : value) : prim :=
@@ -143,10 +182,14 @@ Section WithFacts.
   (* FieldWrapper.default after set_default(raw): `self._default is not None` decides; otherwise the definition default
      (for a nested field: the attribute of the enclosing member's default instance) *)
   Definition field_default (defn : option value) (from_file : value) : value :=
-    match from_file with
-    | VNone => match defn with Some d => d | None => VNone end
-    | _ => from_file
-    end.
+    (fix go (l : list dsrc) : value :=
+       match l with
+       | [] => VNone                                                         (* else: default = None *)
+       | DManual :: r => match from_file with VNone => go r | _ => from_file end   (* self._default is not None *)
+       | DParent :: r | DFieldDefault :: r | DFactory :: r =>                (* the definition default, wherever it is declared *)
+           match defn with Some d => d | None => go r end
+       | _ :: r => go r                                                      (* subgroups, store_true/store_false: outside this grammar *)
+       end) (w_dchain W).
 
   (* get_arg_options, `elif self.is_enum:` arm: the default of a (non-Optional) Enum field is given to argparse by name *)
   Definition as_argparse_default (t : ty) (d : value) : value :=
@@ -162,19 +205,45 @@ Section WithFacts.
     | _ => Ok d
     end.
 
-  (* FieldWrapper.postprocess on a Python object (Leaf.v's postprocess covers what a parse can produce; the remaining
-     shapes a default can have are listed first) *)
-  Definition post_value (t : ty) (x : value) : res value :=
-    match t, x with
-    | TEnum ms, VStr s => if str_in s ms then Ok (VEnum s) else Err (Raise "KeyError")
-    | TPath, VStr s => Ok (VPath s)                                   (* self.type(raw) *)
-    | TList _, VTup vs => Ok (VList vs)
-    | TTupFix _, VNone | TTupVar _, VNone =>
-        if tuple_none_guard then Ok VNone else Err (Raise "TypeError")  (* tuple(None) *)
-    | TTupFix _, VList _ | TTupVar _, VList _ | TTupFix _, VTup _ | TTupVar _, VTup _ => Ok (postprocess t (to_raw x))
-    | TTupFix _, _ | TTupVar _, _ => Err (Raise "OutOfModel")        (* tuple(<scalar>) *)
-    | _, _ => Ok (postprocess t (to_raw x))
+  (* FieldWrapper.postprocess on a Python object: the first arm of the regenerated chain whose test holds for the annotation runs its
+     body; a body that does not return falls to the final `return raw_parsed_value` *)
+  Definition pp_test_holds (c : pp_test) (t : ty) : bool :=
+    match c, t with
+    | PtEnum, TEnum _ | PtChoice, TLit _ | PtTuple, TTupFix _ | PtTuple, TTupVar _ | PtBool, TBool | PtList, TList _
+    | PtOptional, TOpt _ => true
+    | PtNotBuiltin, (TInt | TFloat | TStr | TBool) => false      (* utils.builtin_types *)
+    | PtNotBuiltin, _ => true
+    | _, _ => false
     end.
+
+  Definition pp_run (r : pp_rule) (t : ty) (x : value) : res value :=
+    match r with
+    | PrEnumByName => match t, x with
+                      | TEnum ms, VStr s => if str_in s ms then Ok (VEnum s) else Err (Raise "KeyError")
+                      | _, _ => Ok x
+                      end
+    | PrChoice => Ok (postprocess t (to_raw x))
+    | PrTuple g => match x with
+                   | VNone => if g then Ok VNone else Err (Raise "TypeError")        (* tuple(None) *)
+                   | VList vs => Ok (VTup vs)
+                   | VTup _ => Ok x
+                   | _ => Err (Raise "OutOfModel")                                    (* tuple(<scalar>) *)
+                   end
+    | PrIdentity => Ok x
+    | PrListOfTuple => match x with VTup vs => Ok (VList vs) | _ => Ok x end
+    | PrOptTuple => match t, x with
+                    | TOpt (TTupFix _), VList vs | TOpt (TTupVar _), VList vs => Ok (VTup vs)
+                    | _, _ => Ok x
+                    end
+    | PrCallType => match t, x with TPath, VStr s => Ok (VPath s) | _, _ => Ok x end   (* Path(str); Path(Path) is the same path *)
+    end.
+
+  Definition post_value (t : ty) (x : value) : res value :=
+    (fix go (l : list (pp_test * pp_rule)) : res value :=
+       match l with
+       | [] => Ok x
+       | (c, r) :: rest => if pp_test_holds c t then pp_run r t x else go rest
+       end) (w_pp W).
 
   (* from the action's default to the constructor argument (the option does not occur on the command line) *)
   Definition finish_default (t : ty) (d : value) : res value :=
@@ -201,6 +270,26 @@ Section WithFacts.
     | SOpt s' => absent_err s'
     end.
 
+  (* the guard of _create_dataclass_instance, for a member of Optional type whose definition default is None *)
+  Definition guard_holds (has_section : bool) : bool :=
+    forallb (fun g => match g with
+                      | GOptional | GDefaultsAllNone => true
+                      | GDefaultNone => negb (has_section && w_wdr W)
+                      end) (w_oguard W).
+
+  (* `arg_value != default_value` over wrapper.fields: the parsed (postprocessed) value against FieldWrapper.default *)
+  Definition leaf_at_default (t : ty) (defn : option value) (p : prim) : bool :=
+    let d := field_default defn (decode p) in
+    match finish_default t d with Ok a => value_eqb a d | Err _ => true end.
+  Definition fields_at_defaults (s : schema) (kvs : list (string * doc)) : bool :=
+    match s with
+    | SNode fs => forallb (fun kv => match snd kv with
+                                     | SLeaf t defn => leaf_at_default t defn (match assoc (fst kv) kvs with Some (DPrim p) => p | _ => PNull end)
+                                     | _ => true
+                                     end) fs
+    | _ => true
+    end.
+
   (* ---------- a tree of dataclasses: DataclassWrapper.set_default distributes the document by field name ---------- *)
   Fixpoint load_cfg (s : schema) (d : option doc) : res inst :=
     match s with
@@ -219,12 +308,16 @@ Section WithFacts.
             else bind (load_fields load_cfg kvs fs) (fun xs => Ok (INode xs))
         end
     | SOpt s' =>
-        (* _create_dataclass_instance: an Optional member whose wrapper has no default (set_default(None), or no entry) and
-           whose fields all sit at their defaults - always so on an empty command line - is None; a section in the file is the
-           wrapper's default (set_default(dict)), and the instance is built *)
+        (* _create_dataclass_instance: the member is None when the (regenerated) guard holds and every plain field's parsed value
+           equals the field's default - always so on an empty command line when the file has no section (set_default(None), or no
+           entry); a section in the file becomes the wrapper's own default (set_default(dict)) when w_wdr, which defeats the guard *)
         match d with
         | None | Some (DPrim PNull) => match absent_err s' with Some e => Err e | None => Ok (ILeaf VNone) end
-        | _ => load_cfg s' d
+        | Some (DDict kvs) =>
+            if guard_holds true && fields_at_defaults s' kvs
+            then match load_cfg s' d with Err e => Err e | Ok _ => Ok (ILeaf VNone) end
+            else load_cfg s' d
+        | Some (DPrim _) => Err (Raise "OutOfModel")
         end
     end.
 
@@ -232,10 +325,20 @@ Section WithFacts.
   Definition config_loop (suffix : string) (s : schema) (x : inst) : res inst :=
     bind (file_roundtrip suffix (to_dict x)) (fun d => load_cfg s (Some d)).
 
-  (* save({dest: to_dict(x)}, path), then ArgumentParser(config_path=path).add_arguments(cls, dest): the section of the destination *)
-  Definition config_loop_rooted (dest suffix : string) (s : schema) (x : inst) : res inst :=
-    bind (file_roundtrip suffix (DDict [(dest, to_dict x)]))
-         (fun d => match d with
+  (* the four ways of handing the file to a parser.  parse(cls, ...) is given the un-rooted file, ArgumentParser + add_arguments(cls,
+     dest) the file keyed by dest; parse_known_args applies the constructor's files and the --config_path files (whose default is the
+     constructor's) before set-up; set_defaults re-roots the document under the single destination for the listed nested modes and
+     hands each destination its section (no section: the definition defaults) *)
+  Definition applies (via : route) : bool :=
+    let has c := existsb (fun x => match x, c with CCtor, CCtor | CCli, CCli => true | _, _ => false end) (w_csources W) in
+    match via with RCtor => has CCtor || has CCli | RCli => has CCli end.
+  Definition rerooted (a : api) : bool :=
+    existsb (nmode_eqb (match a with AParse => w_parse_nm W | AParser => w_parser_nm W end)) (w_reroot W).
+  Definition config_run (via : route) (a : api) (dest suffix : string) (s : schema) (x : inst) : res inst :=
+    let file := match a with AParse => to_dict x | AParser => DDict [(dest, to_dict x)] end in
+    bind (file_roundtrip suffix file)
+         (fun d => if negb (applies via) then load_cfg s None else
+                   match (if rerooted a then DDict [(dest, d)] else d) with
                    | DDict kvs => load_cfg s (assoc dest kvs)
                    | DPrim _ => Err (Raise "OutOfModel")
                    end).
